@@ -24,6 +24,7 @@ import (
 	dto "github.com/prometheus/client_model/go"
 	"github.com/saucelabs/forwarder"
 	"github.com/saucelabs/forwarder/header"
+	"github.com/saucelabs/forwarder/httplog"
 	"github.com/saucelabs/forwarder/internal/zzverif/simnet"
 	"github.com/saucelabs/forwarder/log"
 	"github.com/saucelabs/forwarder/log/martianlog"
@@ -63,7 +64,7 @@ type Options struct {
 	TransportCAPEM  []byte // root CA the proxy's transport trusts (data: URI is built from it)
 	Insecure        bool
 	ShutdownTimeout time.Duration
-	LogHTTP         string
+	LogHTTP         string // --log-http mode: none, short-url, url, headers, body, errors (default)
 	Net             *simnet.Net // share an existing network (several proxy instances in one bubble)
 	Addr            string      // listen address (default ProxyAddr)
 }
@@ -212,6 +213,9 @@ func Start(o Options) (*World, error) {
 	}
 	if o.TLSListener {
 		cfg.Protocol = forwarder.HTTPSScheme
+	}
+	if o.LogHTTP != "" {
+		cfg.LogHTTPMode = httplog.Mode(o.LogHTTP) // --log-http <mode>
 	}
 	cfg.ReadLimit = forwarder.SizeSuffix(o.ReadLimit)
 	cfg.WriteLimit = forwarder.SizeSuffix(o.WriteLimit)
